@@ -30,7 +30,12 @@
     Calls on reference containers, foreign items etc. ARE translated; they are rejected (or not) by
     the ownership checker [pre_ok3b], not by the translation.
 
-    PART 2 is CoreOpsBridgeHist.v (histories, the transported C06 / C07 theorems, non-vacuity). *)
+    [pools_after_call]: the pools after the call are the old pools extended by the identities the
+    proof-level run returned — the declared strings to the string pool, the returned item (kind
+    [KPush]) to the item pool.  [tr_shape]: the result of a translated call has the shape of its kind.
+
+    PART 2 is CoreOpsBridgeHist.v (acceptance, histories, the transported C06 / C07 theorems),
+    PART 3 CoreOpsBridgeOwned.v (acceptance by the rule checker alone), CoreOpsBridgeEx.v non-vacuity. *)
 From CJ Require Import Base Dbl Heap Forest CoreSpec CoreDefs CoreRefineBase CoreRefineHistory CoreRefineHistoryObj
   CoreRefineCreate CoreHistoryAllSteps CoreHistoryAll.
 From CJ Require CoreOps.
@@ -510,4 +515,92 @@ Proof.
                end
            end;
     try discriminate Hr; injection Hr as <- _; exact I.
+Qed.
+
+(** * the string pool is extended by exactly the identities the declarations return *)
+Fixpoint seq_pos (n : positive) (k : nat) : list positive :=
+  match k with O => [] | S k' => n :: seq_pos (Pos.succ n) k' end.
+Definition pos_shift (n : positive) (k : nat) : positive := Nat.iter k Pos.succ n.
+Lemma pos_shift_S n k : pos_shift (Pos.succ n) k = Pos.succ (pos_shift n k).
+Proof. unfold pos_shift. induction k as [|k IH]; [done|]. simpl. by rewrite IH. Qed.
+Lemma seq_pos_app n k1 k2 : seq_pos n (k1 + k2) = seq_pos n k1 ++ seq_pos (pos_shift n k1) k2.
+Proof.
+  revert n. induction k1 as [|k1 IH]; intros n; [done|]. cbn [Nat.add seq_pos app]. rewrite IH.
+  do 2 f_equal. cbn. by rewrite pos_shift_S.
+Qed.
+
+Lemma tr_str_strs V st s p pre st1 V1 :
+  tr_str V st s = Some (p, pre, st1, V1) ->
+  CO.st_strs st1 = CO.st_strs st ++ (Some <$> seq_pos (v_next V) (length pre)) /\
+  v_next V1 = pos_shift (v_next V) (length pre).
+Proof.
+  destruct s as [|k|b|k|k]; cbn [tr_str]; intros E.
+  - injection E as <- <- <- <-. by rewrite app_nil_r.
+  - injection E as <- <- <- <-. by rewrite app_nil_r.
+  - injection E as <- <- <- <-. done.
+  - destruct (v_key V _); [|done]. injection E as <- <- <- <-. by rewrite app_nil_r.
+  - destruct (v_val V _); [|done]. injection E as <- <- <- <-. by rewrite app_nil_r.
+Qed.
+Lemma tr_strs_strs l : forall V st ps pre st1 V1,
+  tr_strs V st l = Some (ps, pre, st1, V1) ->
+  CO.st_strs st1 = CO.st_strs st ++ (Some <$> seq_pos (v_next V) (length pre)) /\
+  v_next V1 = pos_shift (v_next V) (length pre).
+Proof.
+  induction l as [|a l IH]; intros V st ps pre st1 V1 E; cbn [tr_strs] in E.
+  - injection E as <- <- <- <-. by rewrite app_nil_r.
+  - destruct (tr_str V st a) as [[[[p pre1] sta] Va]|] eqn:Ea; [|done].
+    destruct (tr_strs Va sta l) as [[[[ps2 pre2] st2] V2]|] eqn:El; [|done]. injection E as <- <- <- <-.
+    destruct (tr_str_strs _ _ _ _ _ _ _ Ea) as [H1 H2]. destruct (IH _ _ _ _ _ _ El) as [H3 H4].
+    rewrite app_length. split.
+    + rewrite seq_pos_app, fmap_app, app_assoc, H3, H1, H2. reflexivity.
+    + rewrite H4, H2. unfold pos_shift. by rewrite Nat.add_comm, Nat.iter_add.
+Qed.
+
+Lemma tr_strs_pushed V st o t :
+  tr V st o = Some t -> CO.st_strs (t_st t) = CO.st_strs st ++ (Some <$> seq_pos (v_next V) (length (t_pre t))).
+Proof.
+  intros E.
+  destruct o; cbn [tr] in E; try discriminate E; unfold T0, T1, T2 in E;
+    try (injection E as <-; cbn [t_st t_pre length seq_pos fmap list_fmap]; by rewrite app_nil_r).
+  all: try (destruct (tr_str V st s) as [[[[p1 pre1] st1] V1]|] eqn:Es; [|discriminate E]).
+  all: try (destruct (tr_str V1 st1 v) as [[[[p2 pre2] st2] V2]|] eqn:Ev; [|discriminate E]).
+  all: try (injection E as <-; cbn [t_st t_pre]; by apply (tr_str_strs _ _ _ _ _ _ _ Es)).
+  - destruct strs as [l|]; [|injection E as <-; cbn [t_st t_pre length seq_pos fmap list_fmap]; by rewrite app_nil_r].
+    destruct (tr_strs V st l) as [[[[ps pre] st1] V1]|] eqn:El; [|done]. injection E as <-.
+    by apply (tr_strs_strs _ _ _ _ _ _ _ El).
+  - injection E as <-. cbn [t_st t_pre]. destruct (tr_str_strs _ _ _ _ _ _ _ Es) as [H1 H2].
+    destruct (tr_str_strs _ _ _ _ _ _ _ Ev) as [H3 H4].
+    rewrite app_length. rewrite seq_pos_app, fmap_app, app_assoc, H3, H1, H2. reflexivity.
+  - injection E as <-. cbn [t_st t_pre]. destruct (tr_str_strs _ _ _ _ _ _ _ Es) as [H1 H2].
+    destruct (tr_str_strs _ _ _ _ _ _ _ Ev) as [H3 H4].
+    rewrite app_length. rewrite seq_pos_app, fmap_app, app_assoc, H3, H1, H2. reflexivity.
+  - injection E as <-. done.
+Qed.
+
+(** what the declarations return, in the proof-level run *)
+Lemma run_decls_results pre : forall rest h rs h',
+  run_ops3 (((fun c => O2 (OForeign c)) <$> pre) ++ rest) h = Ret (rs, h') ->
+  take (length pre) rs = (fun x => R (RPtr (Some x))) <$> seq_pos (h_next h) (length pre).
+Proof.
+  induction pre as [|c pre IH]; intros rest h rs h' E; [done|].
+  cbn [fmap list_fmap app run_ops3] in E.
+  assert (Hf : run_op3 (O2 (OForeign c)) h = Ret (R (RPtr (Some (h_next h))), foreign_heap h c)) by reflexivity.
+  rewrite (bindM_Ret _ _ _ _ _ Hf) in E. unfold bindM in E.
+  destruct (run_ops3 _ (foreign_heap h c)) as [[xs h1]|e] eqn:Ex; [|done]. injection E as <- <-.
+  cbn [length take seq_pos fmap list_fmap]. f_equal. apply (IH _ _ _ _ Ex).
+Qed.
+
+(** THE POOLS AFTER A TRANSLATED CALL, in terms of the proof-level results [rs]: the string pool is the
+    old one extended by the identities the declarations returned, the item pool is the old one
+    extended by the returned item for the kind [KPush] — then both are swept. *)
+Theorem pools_after_call V st o t h rs h' :
+  view_ok V h -> tr V st o = Some t -> run_ops3 (tr_ops t) h = Ret (rs, h') ->
+  CO.st_strs (t_st t) = CO.st_strs st ++ (res_ptr3 <$> take (length (t_pre t)) rs) /\
+  CO.st_items (new_pools (t_kind t) (t_st t) (main_res t rs)) =
+    CO.st_items (t_st t) ++ match t_kind t with KPush => [res_ptr3 (main_res t rs)] | _ => [] end.
+Proof.
+  intros (Hn & _) E Hr. split.
+  - rewrite (tr_strs_pushed _ _ _ _ E), Hn. f_equal. unfold tr_ops in Hr.
+    rewrite (run_decls_results _ _ _ _ _ Hr). by rewrite <- list_fmap_compose.
+  - destruct (t_kind t); cbn [new_pools CO.push_item CO.st_items]; by rewrite ?app_nil_r.
 Qed.
